@@ -202,7 +202,14 @@ func fromCacheItem(
 
 	for _, rrs := range [][]dns.RR{resp.Answer, resp.Ns, resp.Extra} {
 		for _, rr := range rrs {
-			rr.Header().Ttl = newTTL
+			h := rr.Header()
+			if h.Rrtype == dns.TypeOPT {
+				// The TTL field of an OPT record contains the extended RCODE,
+				// the version, and the flags.
+				continue
+			}
+
+			h.Ttl = newTTL
 		}
 	}
 
